@@ -599,7 +599,7 @@ class Twin:
                     dst_rack_id=texts["did"],
                     dst_rack_type=texts["dtype"],
                 )
-            elif name in ("save", "exit", "enter", "str"):
+            elif name in ("save", "exit", "enter", "str", "clear"):
                 return self._file_op(op)
             elif name in ("log", "condense"):
                 lw = self.lws[op["lw"]]
@@ -1036,6 +1036,8 @@ class Twin:
             if name == "enter":
                 if wl.__enter__() is not wl:
                     raise RuntimeError("__enter__ did not return the worklist")
+            elif name == "clear":
+                wl.clear()
             elif name == "str":
                 import re as _re
 
